@@ -68,6 +68,7 @@ func oneRun(t *testing.T, spec *Spec, idx int, vec []uint32, keepEvents bool) *R
 	leaked, hung := Execute(t, r, func(r *Run) {
 		if spec.Verbose {
 			r.hook.Capture = true
+			r.FullLog = []string{}
 		}
 		sc(r)
 	})
@@ -86,6 +87,9 @@ func oneRun(t *testing.T, spec *Spec, idx int, vec []uint32, keepEvents bool) *R
 		res.Vector = r.Ch.Rec
 		if spec.Verbose {
 			res.LogLines = r.hook.lines
+			if p := os.Getenv("VERIF_EVENTLOG"); p != "" {
+				os.WriteFile(p, []byte(strings.Join(r.FullLog, "\n")), 0644)
+			}
 		}
 	}
 	return res
